@@ -51,6 +51,7 @@ import (
 
 	"verif/harness/internal/certs"
 	"verif/harness/internal/fakep11"
+	"verif/harness/internal/fakeamqp"
 	"verif/harness/internal/faketoken"
 	"verif/harness/internal/pipelinex"
 	"verif/harness/internal/res"
@@ -117,6 +118,7 @@ type world struct {
 	k2key    string // (p11 mode) PEM file of the EC key that goes on the second token
 	k3key    string
 	model    *fakep11.Model
+	broker   *fakeamqp.Broker // (amqp "broker:<kinds>") the scripted AMQP broker the audit records go to
 }
 
 // startTokenModel: two tokens (tok1 with the RSA test key as k1, tok2 with the EC key as k2) behind the wire module
@@ -241,6 +243,11 @@ func buildWorld(dir, auditKind, amqp string, cacheSeconds int, rateLimit float64
 	}
 	if w.auditLog != "" {
 		fmt.Fprintf(&sb, "auditfile: %s\n", w.auditLog)
+	}
+	if strings.HasPrefix(amqp, "broker:") {
+		kinds := strings.Split(strings.TrimPrefix(amqp, "broker:"), ",")
+		w.broker = fakeamqp.New(func(conn int) string { return kinds[(conn-1)%len(kinds)] })
+		fmt.Fprintf(&sb, "amqp:\n  url: %s\n  sigsxchg: relic.test.sigs\n", w.broker.URL())
 	}
 	if amqp == "refused" {
 		l, _ := net.Listen("tcp", "127.0.0.1:0")
@@ -737,7 +744,32 @@ func Main(args []string) {
 	if *auditKind == "ok" {
 		trace = append(trace, recs...)
 	}
-	trace = append(trace, event{"ev": "End", "amqpObserved": false})
+	acked := 0
+	if w.broker != nil {
+		// what the broker took responsibility for: the messages it acknowledged
+		w.broker.Quiesce(3 * time.Second)
+		for _, m := range w.broker.Messages() {
+			if m.Confirmed != "ack" {
+				continue
+			}
+			acked++
+			var a map[string]any
+			if err := json.Unmarshal(m.Body, &a); err != nil {
+				r.Fail(map[string]string{"engine": "signsrv", "kind": "audit-format"}, nil, "AMQP message is not one JSON object: %.80q", m.Body)
+				continue
+			}
+			trace = append(trace, event{"ev": "Record", "sink": "amqp", "rid": shortRid(fmt.Sprint(a["client.filename"])), "key": a["sig.keyname"],
+				"sigtype": a["sig.type"], "digest": strings.ToLower(strings.ReplaceAll(fmt.Sprint(a["sig.hash"]), "-", "")),
+				"client": a["client.name"], "ip": a["client.ip"], "x509": a["sig.x509.fingerprint"], "pgp": a["sig.pgp.fingerprint"]})
+		}
+		if n := w.broker.OpenConns(); n != 0 {
+			r.Fail(map[string]string{"engine": "signsrv", "kind": "amqp-connection-leak"}, nil, "%d AMQP connections still open after the server was closed", n)
+		}
+		r.Count("amqp_acked", acked)
+		r.Count("amqp_messages", len(w.broker.Messages()))
+		w.broker.Close()
+	}
+	trace = append(trace, event{"ev": "End", "amqpObserved": w.broker != nil})
 	// end-state checks that do not depend on hooks
 	if *auditKind == "ok" && *amqp == "" {
 		if int64(len(recs)) != okCount && !(*shutdown && int64(len(recs)) > okCount) {
@@ -763,6 +795,18 @@ func Main(args []string) {
 				r.Fail(map[string]string{"engine": "signsrv", "kind": "audit-client"}, rc, "audit record names client %v ip %v, expected verifclient / 198.51.100.7", rc["client"], rc["ip"])
 				break
 			}
+		}
+	} else if w.broker != nil {
+		// a signature is returned only for a record the broker acknowledged (and, with a file, appended)
+		if *auditKind == "ok" || *auditKind == "none" {
+			if okCount != int64(acked) && !*shutdown {
+				r.Fail(map[string]string{"engine": "signsrv", "kind": "audit-count"}, nil, "%d successful responses, the broker acknowledged %d audit records", okCount, acked)
+			}
+			if *auditKind == "ok" && len(recs) != acked && !*shutdown {
+				r.Fail(map[string]string{"engine": "signsrv", "kind": "audit-count"}, nil, "%d audit lines in the file, the broker acknowledged %d records (the file comes second and only after an acknowledgement)", len(recs), acked)
+			}
+		} else if okCount != 0 {
+			r.Fail(map[string]string{"engine": "signsrv", "kind": "sink-failure-ignored"}, nil, "%d signatures were returned although the audit file (%s) cannot be written", okCount, *auditKind)
 		}
 	} else if *auditKind != "none" || *amqp != "" {
 		if okCount != 0 {
